@@ -137,7 +137,8 @@ class SimBoard(Device):
                 'pins': dict(sorted(self.pins.items())), 'pin_dir': dict(sorted(self.pin_dir.items())),
                 'sc': dict(sorted(self.sc.items())),
                 'sr': self.sr, 'hm': list(self.hm_log), 'sp': list(self.sp_log),
-                'toggles': self.toggles, 'accum_cleared': self.accum_cleared}
+                'toggles': self.toggles, 'accum_cleared': self.accum_cleared,
+                'voltage': self.voltage, 'current': self.current, 'status': self.status}
 
     # ------------------------------------------------------------------
     def descriptors(self, port):
